@@ -86,6 +86,7 @@ def ob_capture_set(r, tier, seed, depth, forms, inner=('EVar', 'ELet', 'EBinary'
 def obligations():
     return [Ob('O8.1-capture-set-d2', 'collect_captured = free variables in scope: depth 2 (let / binary / call / tuple / while on top)', ob_capture_set, ('quick', 'thorough'), 10, dict(depth=2, forms=['ELet', 'EBinary', 'ECall', 'ETuple', 'EWhile'])),
             Ob('O8.1-capture-set-if', 'collect_captured = free variables in scope: if / match-free branches', ob_capture_set, ('quick', 'thorough'), 5, dict(depth=2, forms=['EIf'], inner=('EVar', 'ELet'), names=('x', 'z'))),
+            Ob('O8.1-capture-set-more', 'collect_captured = free variables in scope: match (scrutinee, arm bodies, default) / unary / projection / array / go / field read on top', ob_capture_set, ('quick', 'thorough'), 5, dict(depth=2, forms=['EMatch', 'EUnary', 'EProj', 'EArray', 'EGo', 'EConstrGet', 'EConstr'], inner=('EVar', 'ELet'), names=('x', 'z'))),
             Ob('O8.1-capture-set-d3', 'collect_captured = free variables in scope: depth 3 (let only, names x / z)', ob_capture_set, ('thorough',), 100, dict(depth=3, forms=['ELet'], inner=('EVar', 'ELet'), names=('x', 'z')))]
 
 META = {
